@@ -99,9 +99,13 @@ Definition tcsec_eqb (a b : tcsec) : bool :=
 Definition tc_eqb (a b : tc) : bool :=
   sph_eqb (tc_sph a) (tc_sph b) && tcsec_eqb (tc_sec a) (tc_sec b) && bytes_eqb (tc_app a) (tc_app b).
 
-(* app_data setter *)
+(* app_data setter: keeps the data length field in step *)
 Definition tc_set_app_data (t : tc) (d : bytes) : tc :=
-  {| tc_sph := tc_sph t; tc_sec := tc_sec t; tc_app := d; tc_crc := tc_crc t |}.
+  let h := tc_sph t in
+  {| tc_sph := {| ver := ver h; ptype := ptype h; shf := shf h; apid := apid h;
+                  sflags := sflags h; scount := scount h;
+                  dlen := tc_get_data_length (len d) PUS_C_SEC_HEADER_LEN |};
+     tc_sec := tc_sec t; tc_app := d; tc_crc := tc_crc t |}.
 
 (* spacepackets.ecss.check_pus_crc *)
 Definition check_pus_crc (p : bytes) : bool := crc16 p =? 0.
